@@ -70,8 +70,43 @@ class LazyStack:
             return LazyStack([self.items[k] for k in idx])
         raise Unsupported(f"LazyStack index {key!r}")
 
+    # chunk layout along the molecule axis: one chunk unless a section installs a splitter (dask's "auto" rechunk cuts the stack into pieces of
+    # <= 128 MiB: n molecules -> e.g. (n - 1, 1)); a reduction must not depend on it
+    AUTO_SPLIT = None
+    _chunks0 = None
+
     def rechunk(self, *a, **k):
-        return self
+        out = LazyStack(self.items)
+        n = len(self.items)
+        split = LazyStack.AUTO_SPLIT(n) if (LazyStack.AUTO_SPLIT is not None and n) else (n,)
+        out._chunks0 = tuple(int(c) for c in split)
+        return out
+
+    @property
+    def chunks(self):
+        c0 = self._chunks0 if self._chunks0 is not None else (len(self.items),)
+        return (tuple(c0),) + tuple((s,) for s in self.shape[1:])
+
+    @property
+    def numblocks(self):
+        return tuple(len(c) for c in self.chunks)
+
+    @property
+    def dtype(self):
+        return np.dtype(np.float32)
+
+    def map_blocks(self, func, *args, chunks=None, dtype=None, **kw):
+        """apply func to every block along the molecule axis (inner axes are never split here) and concatenate the results along that axis"""
+        out, start = [], 0
+        for c in self.chunks[0]:
+            blk = A.to_symarray(np.stack([A._obj(it.compute() if hasattr(it, "compute") else it) for it in self.items[start:start + c]], axis=0))
+            res = func(blk, *args, **kw)
+            res = A._obj(res)
+            for r in range(res.shape[0]):
+                out.append(res[r].view(A.SymArray))
+            start += c
+        new = LazyStack(out)
+        return new
 
     def mean(self, axis=0):
         if axis != 0:
